@@ -16,6 +16,10 @@ ASSUMPTIONS = ["grid-membership tolerance 1e-6 cell (the affine map's rounding i
 NONTRIVIAL_FLOOR = {"quick": 300, "thorough": 3000}
 
 
+# thorough tier: coverage-guided (atheris) drive of the same generator and oracle: kind -> (shards, cases per shard)
+FUZZ = {"generated": (8, 1500)}
+
+
 def plan(tier):
     return [("generated", 16, (1600 if tier == "quick" else 32000) // 16)]
 
